@@ -3,6 +3,8 @@ package c08
 // directed inputs: the shapes the design's probes already saw (DESIGN section 6)
 // and the edge cases of every printer branch; each one is also a native fuzz seed.
 var directed = []string{
+	// an access after a call / access which the printer spreads over several lines
+	`x := a([1,2,3,4,5])[0]`, `a({1:2,3:4,5:6}).foo[1]`, `x := f([1,2,3,4,5])[0][1].b([1,2,3,4,5,6])[3]`, "y := g(1,\n2)[0]", `z := m[[1,2,3,4,5][2]][0]`,
 	// parentheses
 	"1 - (2 - 3)", "not (a and b)", "a / (b * c)", "-(a + b)", "(not a) == b", "a == (b == c)", "(a < b) * 2",
 	"a - (b + c)", "a % (b % c)", "(a or b) and c", "a and (b or c)", "not (a or b)", "(a and b) or c",
